@@ -74,3 +74,55 @@ Proof. exact b64_roundtrip. Qed.
 
 Theorem C08_raw_string_refuted : b64_decode (bs "test") = Some [Byte.xb5; Byte.xeb; Byte.x2d].
 Proof. exact raw_string_refuted. Qed.
+
+(* protobuf serializer: lossless exactly on the value shapes it preserves (pb_val_ok: nil, finite float64,
+   valid UTF-8 strings, integers whose float64 image denotes the same integer), for every compress configuration *)
+Theorem C08_lossless_protobuf_partial :
+  forall (fmt_time : tm -> bytes) (parse_time : bytes -> option tm)
+         (compress : ckind -> bytes -> bytes) (decompress : ckind -> bytes -> option bytes)
+         (json_print : json -> bytes) (json_parse : bytes -> option json)
+         (pb_print : plog -> bytes) (pb_parse : bytes -> option plog),
+  (forall k x, decompress k (compress k x) = Some x) ->
+  (forall j, json_clean j = true -> json_parse (json_print j) = Some j) ->
+  (forall p, plog_clean p = true -> pb_parse (pb_print p) = Some p) ->
+  forall c u,
+  bytes_eqb (cf_ser c) s_protobuf = true -> clean_text (cf_ctype c) = true -> log_pb_ok u = true ->
+  exists ctx info, flush go_undo_table fmt_time compress json_print pb_print c u = Some (ctx, info) /\
+  exists u', read_back go_undo_table parse_time decompress json_parse pb_parse ctx info = Ok u'
+             /\ log_equiv executor_eq u u' = true.
+Proof.
+  exact (fun f p c d jp jq pp pq H1 H2 H3 cf u =>
+           lossless_protobuf_partial go_undo_table f p c d jp jq pp pq H1 H2 H3 cf u go_select_none).
+Qed.
+
+Example C08_lossless_protobuf_partial_nonvacuous : log_pb_ok sample_pb_log = true.
+Proof. exact sample_pb_log_ok. Qed.
+
+(* ... and outside it the value is lost (what finding C08-protobuf records) *)
+Theorem C08_protobuf_refuted_int :
+  pb_through (GInt W64 9007199254740993) = Some (GF64 4845873199050653696%N)
+  /\ executor_eq (GInt W64 9007199254740993) (GF64 4845873199050653696%N) = false.
+Proof. exact pb_refuted_int. Qed.
+Theorem C08_protobuf_refuted_bytes : exists v', pb_through (GBytes [Byte.x00; Byte.xff]) = Some v'
+  /\ executor_eq (GBytes [Byte.x00; Byte.xff]) v' = false.
+Proof. exact pb_refuted_bytes. Qed.
+Theorem C08_protobuf_refuted_time : exists v', pb_through (GTime (mkTm 2024 2 29 23 59 58 120000000 0)) = Some v'
+  /\ executor_eq (GTime (mkTm 2024 2 29 23 59 58 120000000 0)) v' = false.
+Proof. exact pb_refuted_time. Qed.
+Theorem C08_protobuf_int_boundary :
+  pb_val_ok (GInt W64 9007199254740992) = true /\ pb_val_ok (GInt W64 9007199254740993) = false
+  /\ pb_val_ok (GInt W64 (-9223372036854775808)) = true.
+Proof. exact pb_int_boundary. Qed.
+
+(* the context codec on arbitrary maps: keys and values without '=' '&' *)
+Theorem C08_ctx_map : forall m, ctx_clean m = true -> decode_ctx (encode_ctx m) = m.
+Proof. exact ctx_roundtrip. Qed.
+Theorem C08_ctx_map_lookup : forall m k, ctx_clean m = true -> NoDup (map fst m) ->
+  ctx_get k (decode_ctx (encode_ctx m)) = assoc k m.
+Proof. exact ctx_map_roundtrip. Qed.
+Theorem C08_ctx_map_refuted_eq : exists m, NoDup (map fst m) /\
+  ctx_get (bs "k") (decode_ctx (encode_ctx m)) <> assoc (bs "k") m.
+Proof. exact ctx_map_refuted_eq. Qed.
+Theorem C08_ctx_map_refuted_amp : exists m, NoDup (map fst m) /\
+  ctx_get (bs "x") (decode_ctx (encode_ctx m)) <> assoc (bs "x") m.
+Proof. exact ctx_map_refuted_amp. Qed.
